@@ -9,15 +9,18 @@ from ..common import Scratch, Timer, tier, seed, use_repo, vlog
 from ..report import Report
 
 
-def snap(objs):
-    return [{"nq": int(o.num_qubits), "gates": ser.ser_gates(o.gates)} for o in objs]
+def snap(objs, ids):
+    return [{"nq": int(o.num_qubits), "gates": ser.ser_gates(o.gates, ids)} for o in objs]
 
 
 def replay(hist):
     objs, steps = [], []
+    ids = ser.GateIds()
+    _snap = snap
+    snap_ = lambda o: _snap(o, ids)
     for op in hist:
         st = dict(op)
-        st["before"] = snap(objs)
+        st["before"] = snap_(objs)
         st["exc"] = ""
         k = op["op"]
         try:
@@ -46,7 +49,7 @@ def replay(hist):
                 objs[op["a"]].iqft(list(op["qubits"]))
         except Exception as e:
             st["exc"] = f"{type(e).__name__}: {e}"
-        st["after"] = snap(objs)
+        st["after"] = snap_(objs)
         steps.append(st)
         if st["exc"]:
             break
@@ -102,10 +105,12 @@ def run(pid):
             c["id"] = k
         vlog("replayed", len(cases))
         verdicts, stats = tlc.run_cases("Trace_Gates", cases, sc, env={"PROP": "C14"}, timeout=2400, heap="4g")
-    vst, ops, clauses, nsteps = {}, {}, {}, 0
+    vst, ops, clauses, nsteps, conf = {}, {}, {}, 0, {}
     for c in cases:
         v = verdicts[c["id"]]
         vst[v[0]] = vst.get(v[0], 0) + 1
+        if v[0] == "ok":
+            conf[v[1]] = conf.get(v[1], 0) + 1
         for s in c["steps"]:
             ops[s["op"]] = ops.get(s["op"], 0) + 1
             nsteps += 1
@@ -120,6 +125,7 @@ def run(pid):
            "samples": [{"history": json.loads(c["key"]), "verdict": verdicts[c["id"]]} for c in cases[:: max(1, len(cases) // 3)][:3]],
            "evaluations": nsteps, "distinct_nontrivial": len(cases),
            "rule": "one case = one history of composition operations replayed on real objects; every step's effect is compared exactly (QSim) with the composition of the recorded operands, and every other live object must be unchanged",
-           "generator_states": gst, "ops": ops, "verdicts": vst, "failing_clauses": clauses}
+           "generator_states": gst, "ops": ops, "verdicts": vst, "failing_clauses": clauses,
+           "refinement": {"CircuitOps_model_vs_real_histories": conf}}
     vac = None if vst.get("ok", 0) >= 300 else f"ok={vst.get('ok', 0)}"
     return rep.finish(cov, T0.s(), assumptions=["spec/QSim.tla (exact simulation)"], vacuity=vac)
